@@ -33,7 +33,14 @@ class World:
         scheme = {'http': 'ksi+http', 'tcp': 'ksi+tcp', 'async-tcp': 'ksi+tcp', 'async-http': 'ksi+http', 'ha': 'ksi+tcp'}[transport]
         uri = '%s://srv.example:1234%s' % (scheme, '/p' if 'http' in scheme else '')
         k = key.decode('latin1')
-        if transport in ('http', 'tcp'):
+        if transport == 'http' and kind == 'aggr' and rng.random() < 0.25 and login.isascii():
+            # credentials given half in the URI, half explicitly: the login id comes from the URI (explicit argument NULL), the key is the explicit one -
+            # each explicit argument takes precedence on its own
+            uri = uri.replace('://', '://%s:uri-embedded-key@' % login, 1)
+            self.setrc = c('set_aggr 0 %s - %s' % (uri, k)).rc
+            c('set_ext 0 %s - %s' % (uri.replace('1234', '1235'), k))
+            self.mixed_credentials = True
+        elif transport in ('http', 'tcp'):
             if rng.random() < 0.5 and len(key) < 60000:
                 # the endpoint was configured before, with a login id and a key of which the present ones are proper prefixes: only the last setting counts
                 c('set_aggr 0 %s %s %s' % (uri, login + '-2', k + '-2016'))
